@@ -17,7 +17,7 @@
      run_ghost              run_fsm with a ghost: the time of the last SYNC -> ESTABLISHED transition since the
                             last stop (history), to which the code's own last_update is compared (tracks)      *)
 From Coq Require Import Permutation.
-From RtrV Require Gen.GeneratedFsm Rtr.FsmTie Rtr.ExpiryProofs.
+From RtrV Require Gen.GeneratedFsm Rtr.FsmTie Rtr.ExpiryProofs Gen.GeneratedFsm2 Rtr.FsmTie2.
 From RtrV Require Import Base.CSem Gen.Generated Rtr.RtrModel Rtr.SyncSets Rtr.ExpiryFrames Rtr.ExpirySync
   Rtr.ConvergeStutter Rtr.ExpiryProofs.
 Local Open Scope Z_scope.
@@ -156,6 +156,13 @@ Example C07_fsm_translation_examples :
   Rtr.FsmTie.run_c 6 100 Rtr.ExpiryProofs.ex_w0 = Some (run_fsm 6 100 Rtr.ExpiryProofs.ex_w0).
 Proof. split; [exact Rtr.FsmTie.no_translator_problems|]. split; [exact (proj1 Rtr.FsmTie.ex_w0_ranges)|exact Rtr.FsmTie.run_c_ex_w0]. Qed.
 
+(* rtr_stop translated (Gen/GeneratedFsm2.v) = the model's rtr_stop after its harness trace item (Rtr/FsmTie2.v rtr_stop_split), for a
+   started socket (thread_id <> 0; a never-started socket only changes state in the C: stop_tie_not_started) *)
+Theorem C07_stop_translated : forall fuel tid w, tid <> 0%Z ->
+  Rtr.FsmTie2.run_eff2 fuel (Gen.GeneratedFsm2.rtr_stop_gen (Rtr.FsmTie2.sock_store_t tid (sk w))) w =
+  Some (match Rtr.FsmTie2.rtr_stop_body w with Ok _ w' => Ok 0%Z w' | Exc x w' => Exc x w' end).
+Proof. exact Rtr.FsmTie2.stop_tie_world. Qed.
+
 Print Assumptions C07_initial.
 Print Assumptions C07_invariant.
 Print Assumptions C07_last_update_step.
@@ -171,3 +178,4 @@ Print Assumptions C07_failed_sync_keeps_timestamp.
 Print Assumptions C07_interrupted_reload_example.
 Print Assumptions C07_purge_translated.
 Print Assumptions C07_fsm_step_translated.
+Print Assumptions C07_stop_translated.
